@@ -35,6 +35,85 @@ def valid_at(cs, t):
         return False
 
 
+def overlapping_submission(res, rng, keys, tree, cm, si):
+    """a two-thread schedule (the node's networking thread submits a transaction while the miner thread / a block handler
+    changes the head): the submitting thread is held inside its in-state validation, the other thread then installs a head
+    that mines a rival spend of the same output, and only then is the first thread let go.  Whichever of the two wins the
+    manager's lock, afterwards every pending transaction must be valid at the head.  Runs last in a scenario (the model is
+    not driven through it)."""
+    import threading
+    import skepticoin.networking.manager as manager_mod
+    head = cm.coinstate.current_chain_hash
+    if head != tree.cs.current_chain_hash and head not in tree.cs.block_by_hash:
+        return
+    utxo = cm.coinstate.unspent_transaction_outs_by_hash[head]
+    in_pool = {i.output_reference for t in cm.transaction_pool for i in t.inputs}
+    free = [(r, o) for r, o in utxo.items() if o.public_key.public_key in keys.pks and o.value > 1 and r not in in_pool]
+    if not free:
+        res.count("overlap:no_material")
+        return
+    r0, o0 = free[0]
+    tx = chain.make_tx(keys, utxo, [r0], [(o0.value - 1, 1)])
+    rival = chain.make_tx(keys, utxo, [r0], [(o0.value, 2)])
+    keep = [t for t in cm.transaction_pool if valid_at(cm.coinstate, t)][:1]
+    blk = tree.extend(head, txs=keep + [rival])
+    view = chain.view(tree.cs, blk.hash())
+    name = "validate_non_coinbase_transaction_in_coinstate"
+    orig = getattr(manager_mod, name, None)
+    if orig is None:
+        res.count("overlap:no_hook_point")
+        return
+    in_validation, resume = threading.Event(), threading.Event()
+    submitter = []
+
+    def held(*a, **kw):
+        if threading.current_thread() in submitter and not in_validation.is_set():
+            in_validation.set()
+            resume.wait(5)
+        return orig(*a, **kw)
+
+    errors = []
+
+    def run_a():
+        try:
+            cm.add_transaction_to_pool(tx)
+        except Exception as e:      # noqa
+            errors.append(repr(e))
+
+    def run_b():
+        try:
+            cm.set_coinstate(view)
+        except Exception as e:      # noqa
+            errors.append(repr(e))
+
+    ta, tb = threading.Thread(target=run_a), threading.Thread(target=run_b)
+    submitter.append(ta)
+    setattr(manager_mod, name, held)
+    try:
+        ta.start()
+        reached = in_validation.wait(2)
+        tb.start()
+        tb.join(0.3)
+        b_overtook = not tb.is_alive()
+        resume.set()
+        ta.join(10)
+        tb.join(10)
+    finally:
+        setattr(manager_mod, name, orig)
+        resume.set()
+    res.case(("overlap", si, tx.hash()), nontrivial=reached)
+    res.count("overlap:" + ("head change ran during the validation" if (reached and b_overtook) else
+                            "head change waited for the submission" if reached else "validation not reached"))
+    if ta.is_alive() or tb.is_alive():
+        res.violations.append({"kind": "a submission overlapping a head change did not finish (deadlock)", "scenario": si})
+        return
+    for msg in pool_problems(cm):
+        res.violations.append({"kind": msg, "scenario": si, "after": "a submission overlapping a head change: the submitting "
+                               "thread was inside its validation when another thread installed a head that mines a rival spend",
+                               "tx": tx.serialize().hex(), "new_head": blk.serialize().hex(),
+                               "head_change_overtook_submission": b_overtook, "errors": errors})
+
+
 def run(ctx):
     res = kit.Result()
     rng = ctx.rng
@@ -236,6 +315,7 @@ def run(ctx):
                 res.violations.append({"kind": msg, "scenario": si, "step": step, "after": kind})
             if len(res.samples) < 4:
                 res.sample({"step": kind, "pool_size": len(cm.transaction_pool)})
+        overlapping_submission(res, rng, keys, tree, cm, si)
         rn.close()
         model = ctx.driver.ask(ops)
         kit.compare(res, ops, impl, model)
